@@ -5,6 +5,7 @@
   two main evaluators are related again, the root of the one corresponding to `$` of the other.
 -/
 import Jqawk.Lemmas.SelectorJunction
+import Jqawk.Lemmas.SelectorPlain
 
 set_option linter.unusedVariables false
 set_option linter.unusedSimpArgs false
@@ -181,26 +182,88 @@ theorem evalSelector_eq (tbl : RuleTable) (sel : Bytes) (E : Expr) (hp : parseEx
   rw [hp]
   rfl
 
-theorem junction (prog : Program) (T : SelTok) (E : Expr) (hE : selE E = true) (tbl : RuleTable) (sel : Bytes)
+/-! ### the region invariant of the nested evaluator -/
+
+def maxFn : List Val → Nat
+  | [] => 0
+  | .fn i :: rest => max (i + 1) (maxFn rest)
+  | _ :: rest => maxFn rest
+
+theorem lt_maxFn {l : List Val} {i : Nat} (h : Val.fn i ∈ l) : i < maxFn l := by
+  induction l with
+  | nil => cases h
+  | cons v rest ih =>
+    rcases List.mem_cons.mp h with e | e
+    · subst e; simp only [maxFn]; omega
+    · have := ih e
+      cases v <;> simp only [maxFn] <;> omega
+
+/-- any heap satisfies the heap part of the region invariant for the region "everything allocated
+    from now on", with a bound on the function indices it contains -/
+theorem heapOK_sel (h : Heap) :
+    HeapOK ⟨h.cells.size, h.arrs.size, h.objs.size, 0, maxFn h.cells.toList⟩ h := by
+  refine ⟨Nat.le_refl _, Nat.le_refl _, Nat.le_refl _, ?_, ?_, ?_, ?_⟩
+  · intro c
+    by_cases hc : c < h.cells.size
+    · have : h.get c = h.cells[c] := by
+        simp [Heap.get, Array.getD_eq_getD_getElem?, hc]
+      cases hv : h.get c with
+      | fn i =>
+        show i < maxFn h.cells.toList
+        apply lt_maxFn
+        rw [← hv, this]
+        exact Array.getElem_mem_toList hc
+      | _ => trivial
+    · have : h.get c = .unknown := by
+        simp only [Heap.get, Array.getD_eq_getD_getElem?, Array.getElem?_eq_none (Nat.le_of_not_lt hc),
+          Option.getD_none]
+      rw [this]; trivial
+  · intro c hc
+    have hc' : h.cells.size ≤ c := hc
+    have : h.get c = .unknown := by
+      simp only [Heap.get, Array.getD_eq_getD_getElem?, Array.getElem?_eq_none hc', Option.getD_none]
+    rw [this]; trivial
+  · intro a ha c hc
+    have ha' : h.arrs.size ≤ a := ha
+    rw [arr_oob h a ha'] at hc; simp at hc
+  · intro o ho kc hkc
+    have ho' : h.objs.size ≤ o := ho
+    rw [obj_oob h o ho'] at hkc; cases hkc
+
+/-- the region of the nested evaluator of a selector started on heap `h` -/
+def Pn (h : Heap) : Region := ⟨h.cells.size, h.arrs.size, h.objs.size, 0, maxFn h.cells.toList⟩
+
+theorem nested_invK (h : Heap) (out : List Bytes) (faults : Nat) (v : JVal) (vA : Val) (sAv : St)
+    (e : newValueJson v (newEvaluator Program.empty h out faults) = .ok vA sAv) :
+    InvK (Pn h) (KSet (Pn h)) (stAd sAv vA) := by
+  have i0 : InvK (Pn h) KAny (newEvaluator Program.empty h out faults) :=
+    newEvaluator_inv (P := Pn h) Program.empty (Nat.zero_le _) (Nat.zero_le _) (heapOK_sel h) out faults
+  have i1 := NP.newValueJson (P := Pn h) (K := KAny) v _ i0
+  unfold NPat at i1
+  rw [e] at i1
+  have i2 := NP.newCell (P := Pn h) (K := KAny) i1.2 sAv i1.1
+  exact ⟨⟨i2.1.heap, i2.1.frames, i2.1.ret⟩, ⟨sAv.heap.cells.size, rfl, i2.2⟩⟩
+
+theorem junction (prog : Program) (T : SelTok) (E : Expr) (hE : selX (fun _ => false) E = true)
+    (hwfE : E.wfB = true) (tbl : RuleTable) (sel : Bytes)
     (hparse : parseExpressionSrc tbl sel = .ok E) (v : JVal) {K : Ctx} (wf : K.WF) (h0 : K.a0 = 0)
     (h0' : K.o0 = 0) (hKA : K.progA = prog) (hKB : K.progB = withSel prog T E) {sA sB : St}
     (hs : SR (mainX K) sA sB) (hlen : sB.frames.length = 1) :
     JRel prog (withSel prog T E) sel (evalSelector tbl sel v sA) (ruleStep (withSel prog T E) T E v sB) := by
   have hnest := newEvaluator_empty_ok sA.heap sA.out sA.faults
-  generalize hs0 : newEvaluator Program.empty sA.heap sA.out sA.faults = s0 at hnest
+  have hnv := nested_invK sA.heap sA.out sA.faults v
+  generalize hs0 : newEvaluator Program.empty sA.heap sA.out sA.faults = s0 at hnest hnv
   -- the context of the first phase
   have hm : K.m ≤ sB.heap.cells.size := hs.heap.mle
   have hszc : sA.heap.cells.size = sB.heap.cells.size + K.d := hs.heap.szc
-  have wf1 := K1_wf wf hm sB.heap.arrs.size sB.heap.objs.size (withSel prog T E)
-  have xwf1 : (X1 (K1 K sB.heap.cells.size sB.heap.arrs.size sB.heap.objs.size (withSel prog T E))
-      s0.frames sB.frames).WF := by
+  have wf1 := K1_wf wf sA.heap sB.heap hm (withSel prog T E)
+  have xwf1 : (X1 (K1 K sA.heap sB.heap (withSel prog T E)) s0.frames sB.frames).WF := by
     refine ⟨wf1, ?_, .inr (fun name h => by cases h)⟩
     show s0.frames.length = sB.frames.length
     rw [hnest.flen, hlen]
   -- the nested evaluator and the main evaluator of run B are related in that context
-  have hsr0 : SR (X1 (K1 K sB.heap.cells.size sB.heap.arrs.size sB.heap.objs.size (withSel prog T E))
-      s0.frames sB.frames) s0 sB := by
-    refine ⟨⟨?_, Nat.le_refl _, ?_, Nat.le_refl _, ?_, Nat.le_refl _, ?_, ?_, ?_⟩, ?_, (fun h => by cases h),
+  have hsr0 : SR (X1 (K1 K sA.heap sB.heap (withSel prog T E)) s0.frames sB.frames) s0 sB := by
+    refine ⟨⟨?_, Nat.le_refl _, ?_, Nat.le_refl _, ?_, Nat.le_refl _, ?_, ?_, ?_, ?_⟩, ?_, (fun h => by cases h),
       (fun h => by cases h), ?_, ?_⟩
     · show s0.heap.cells.size = sB.heap.cells.size + (K.d + 3)
       rw [hnest.size, hszc]; omega
@@ -216,6 +279,23 @@ theorem junction (prog : Program) (T : SelTok) (E : Expr) (hE : selE E = true) (
       have hk' : sB.heap.objs.size ≤ k := hk
       rw [obj_oob _ k hk', obj_oob _ k (by rw [hnest.objs, hs.heap.szo]; exact hk')]
       exact MemR.nil _
+    · -- nothing has been touched yet
+      refine ⟨Nat.le_refl _, ?_, ?_, Nat.le_refl _, ?_, Nat.le_refl _, fun _ _ _ => rfl, ?_, fun _ _ => rfl, ?_,
+        fun _ _ => rfl, ?_⟩
+      · show sA.heap.cells.size ≤ s0.heap.cells.size
+        rw [hnest.size]; exact Nat.le_add_right _ _
+      · show sB.heap.arrs.size ≤ s0.heap.arrs.size
+        rw [hnest.arrs, hs.heap.sza]; exact Nat.le_refl _
+      · show sB.heap.objs.size ≤ s0.heap.objs.size
+        rw [hnest.objs, hs.heap.szo]; exact Nat.le_refl _
+      · intro j hj _
+        exact hnest.pres.get j hj
+      · intro k hk
+        have hk' : k < sB.heap.arrs.size := hk
+        exact hnest.pres.arr k (by rw [hs.heap.sza]; exact hk')
+      · intro k hk
+        have hk' : k < sB.heap.objs.size := hk
+        exact hnest.pres.obj k (by rw [hs.heap.szo]; exact hk')
     · exact ⟨[], [], rfl, rfl, F2.nil, fun h => by cases h⟩
     · rw [hnest.out]; exact hs.out
     · rw [hnest.faults]; exact hs.faults
@@ -228,44 +308,78 @@ theorem junction (prog : Program) (T : SelTok) (E : Expr) (hE : selE E = true) (
   -- the root cell / the `$` cell
   have r2 := SimW.newCell xwf1 hv1 (Nat.le_refl _) sAv sBv hsr1 (Nat.le_refl _)
   obtain ⟨hw2, hc2, hsr2⟩ := r2
+  have hszv : sAv.heap.cells.size = sBv.heap.cells.size + (K.d + 3) := hsr1.heap.szc
+  have hs0sz : s0.heap.cells.size = sB.heap.cells.size + (K.d + 3) := by rw [hnest.size, hszc]; omega
   -- `$` is set in both runs
-  have hsrd : SR (X1 (K1 K sB.heap.cells.size sB.heap.arrs.size sB.heap.objs.size (withSel prog T E))
-        s0.frames sB.frames).withD (stAd sAv vA) (stBd sBv vB) :=
+  have hsrd : SR (X1 (K1 K sA.heap sB.heap (withSel prog T E)) s0.frames sB.frames).withD
+      (stAd sAv vA) (stBd sBv vB) :=
     SR.addD ⟨hsr2.heap, hsr2.frames, (fun h => by cases h), (fun h => by cases h), hsr2.out, hsr2.faults⟩ hc2
-  have g1 : GoodX (X1 (K1 K sB.heap.cells.size sB.heap.arrs.size sB.heap.objs.size (withSel prog T E))
-      s0.frames sB.frames).withD :=
+  have g1 : GoodX (X1 (K1 K sA.heap sB.heap (withSel prog T E)) s0.frames sB.frames).withD :=
     ⟨WF_withD xwf1, fun i f hf _ => by
       have : (Program.empty.functions[i]? : Option FuncDef) = some f := hf
       simp [Program.empty] at this⟩
-  have hids : idsE true (fun _ => false) E = true := selE_ids E hE
+  have hids : idsE true (fun _ => false) E = true := selX_ids _ E hE
+  -- the nested evaluator: region invariant, members of its containers are plain
+  have hinvA : InvK (Pn sA.heap) (KSet (Pn sA.heap)) (stAd sAv vA) := hnv vA sAv eA1
+  have hmphA : MPH (Pn sA.heap) sAv.heap.cells.size (stAd sAv vA).heap := by
+    have hck : ∀ x, x < sAv.heap.cells.size → (sAv.heap.alloc vA).2.get x = sAv.heap.get x := by
+      intro x hx
+      rw [get_alloc]; simp only [Nat.ne_of_lt hx, ↓reduceIte]
+    have key : ∀ y, sB.heap.cells.size ≤ y → y < sBv.heap.cells.size →
+        PC sAv.heap.cells.size (sAv.heap.alloc vA).2 ((K1 K sA.heap sB.heap (withSel prog T E)).σ y) := by
+      intro y y1 y2
+      have hn : ¬ y < sB.heap.cells.size := Nat.not_lt.mpr y1
+      have e : (K1 K sA.heap sB.heap (withSel prog T E)).σ y = y + (K.d + 3) := by simp only [K1, hn, ↓reduceIte]
+      rw [e]
+      have hlt : y + (K.d + 3) < sAv.heap.cells.size := by rw [hszv]; exact Nat.add_lt_add_right y2 _
+      refine ⟨Nat.ne_of_lt hlt, by rw [size_alloc]; exact Nat.lt_succ_of_lt hlt, ?_⟩
+      rw [hck _ hlt]
+      exact cA1.plain _ (by rw [hs0sz]; exact Nat.add_le_add_right y1 _) hlt
+    refine ⟨by show _ < (sAv.heap.alloc vA).2.cells.size; rw [size_alloc]; exact Nat.lt_succ_self _, ?_, ?_⟩
+    · intro k hk x hx
+      have hk' : sB.heap.arrs.size ≤ k := by
+        have : sA.heap.arrs.size ≤ k := hk
+        rw [hs.heap.sza] at this; exact this
+      have har := hsr1.heap.arrs k hk'
+      have hx' : x ∈ (sAv.heap.arr k).toList := hx
+      rw [har.1, Array.toList_map] at hx'
+      obtain ⟨y, hy, rfl⟩ := List.mem_map.mp hx'
+      have hl := har.2 y hy
+      exact key y hl.1 hl.2
+    · intro k hk kc hkc
+      have hk' : sB.heap.objs.size ≤ k := by
+        have : sA.heap.objs.size ≤ k := hk
+        rw [hs.heap.szo] at this; exact this
+      have hob := hsr1.heap.objs k hk'
+      have hkc' : kc ∈ sAv.heap.obj k := hkc
+      rw [hob.1] at hkc'
+      obtain ⟨y, hy, rfl⟩ := List.mem_map.mp hkc'
+      have hl := hob.2 y hy
+      exact key y.2 hl.1 hl.2
   have eqA := selectorRun_eq v E s0 vA sAv eA1
   have eqB := ruleStep_eq (withSel prog T E) T E v sB vB sBv eB1
   have hszd : (stBd sBv vB).heap.cells.size = sBv.heap.cells.size + 1 := size_alloc _ _
-  have hgetc : (stBd sBv vB).heap.get sBv.heap.cells.size = vB := by
-    show (sBv.heap.alloc vB).2.get sBv.heap.cells.size = vB
+  have hgetcA : (stAd sAv vA).heap.get sAv.heap.cells.size = vA := by
+    show (sAv.heap.alloc vA).2.get sAv.heap.cells.size = vA
     rw [get_alloc]; simp
-  have hpresAd : HeapPreserved sAv.heap (stAd sAv vA).heap := HeapPreserved.alloc _ _
-  have hpresBd : HeapPreserved sBv.heap (stBd sBv vB).heap := HeapPreserved.alloc _ _
+  have hszdA : (stAd sAv vA).heap.cells.size = sAv.heap.cells.size + 1 := size_alloc _ _
   have hfrBd : (stBd sBv vB).frames = sBv.frames := rfl
   have hrootBd : (stBd sBv vB).root = sBv.root := rfl
-  have harrBd : (stBd sBv vB).heap.arrs = sBv.heap.arrs := rfl
-  have hobjBd : (stBd sBv vB).heap.objs = sBv.heap.objs := rfl
-  have houtAd : (stAd sAv vA).out = sAv.out := rfl
-  revert hsrd eqA eqB hszd hgetc hpresAd hpresBd hfrBd hrootBd harrBd hobjBd houtAd
+  revert hsrd hinvA hmphA eqA eqB hszd hgetcA hszdA hfrBd hrootBd
   generalize stAd sAv vA = sAd
   generalize stBd sBv vB = sBd
-  intro hsrd eqA eqB hszd hgetc hpresAd hpresBd hfrBd hrootBd harrBd hobjBd houtAd
-  have rE : RR _ (CellR (K1 K sB.heap.cells.size sB.heap.arrs.size sB.heap.objs.size (withSel prog T E)))
+  intro hsrd hinvA hmphA eqA eqB hszd hgetcA hszdA hfrBd hrootBd
+  have rE : RR _ (CellR (K1 K sA.heap sB.heap (withSel prog T E)))
       sBd.heap.cells.size (evalExpr Program.empty evalFuel E sAd) (evalExpr (withSel prog T E) 999995 E sBd) :=
     (allSim evalFuel 999995).expr g1 sBd.heap.cells.size E hids sAd sBd hsrd (Nat.le_refl _)
-  have naA := (allNA Program.empty evalFuel).expr E hE sAd
-  have naB := (allNA (withSel prog T E) 999995).expr E hE sBd
+  have plA' := (allPl (P := Pn sA.heap) (rc := sAv.heap.cells.size) rfl (fun _ => false) evalFuel).expr E sAd hE hwfE
+    hinvA hmphA
   have sfB := (allSafe (withSel prog T E) 999995).expr E sBd
   rw [evalSelector_eq tbl sel E hparse, hs0, eqA, eqB]
-  revert rE naA naB sfB
+  revert rE plA' sfB
   generalize hEA : evalExpr Program.empty evalFuel E sAd = resA
   generalize hEB : evalExpr (withSel prog T E) 999995 E sBd = resB
-  intro rE naA naB sfB
+  intro rE plA' sfB
   cases resA with
   | oof => rw [selAfter_oof E _ hEA]; exact JRel.oofA _ _
   | err eA sAe =>
@@ -274,9 +388,9 @@ theorem junction (prog : Program) (T : SelTok) (E : Expr) (hE : selE E = true) (
     | ok xB sBe => exact rE.elim
     | err eB sBe =>
       obtain ⟨_, rfl, hsrE, _⟩ := rE
-      rw [selAfter_err E _ _ _ hEA, ruleAfter_err _ T E _ _ _ _ _ hEB naB.2]
+      rw [selAfter_err E _ _ _ hEA, ruleAfter_err _ T E _ _ _ _ _ hEB plA']
       cases eA with
-      | sig g => exact absurd rfl (naA.2 g)
+      | sig g => exact absurd rfl (plA' g)
       | runtime pos msg => exact JRel.err _ _ _ _ ⟨rfl, rfl⟩ hsrE.out
       | panic m => exact JRel.err _ _ _ _ rfl hsrE.out
       | unmodelled m => exact JRel.err _ _ _ _ rfl hsrE.out
@@ -286,18 +400,22 @@ theorem junction (prog : Program) (T : SelTok) (E : Expr) (hE : selE E = true) (
     | err eB sBe => exact rE.elim
     | ok xB sBe =>
       obtain ⟨hwE, hcx, hsrE⟩ := rE
-      have hK1e : HR (K1 K sB.heap.cells.size sB.heap.arrs.size sB.heap.objs.size (withSel prog T E))
-          sAe.heap sBe.heap := hsrE.heap
+      obtain ⟨ckA, mphE, _⟩ := plA'
+      have hK1e : HR (K1 K sA.heap sB.heap (withSel prog T E)) sAe.heap sBe.heap := hsrE.heap
       have hszE : sAe.heap.cells.size = sBe.heap.cells.size + (K.d + 3) := hK1e.szc
       -- sizes
       have hc1 : sB.heap.cells.size ≤ sBv.heap.cells.size := cB1.pres.cells
-      have hc2' : sBv.heap.cells.size < sBe.heap.cells.size := by
-        have := naB.heap.cells; omega
-      -- `$` of run B still holds the converted document, which needs no creation
-      have hgetcE : sBe.heap.get sBv.heap.cells.size = vB := by
-        rw [naB.heap.get _ (by omega)]; exact hgetc
-      have hn : needsCreate (sBe.heap.get sBv.heap.cells.size) = false := by
-        rw [hgetcE]; exact needsCreate_plain plB
+      have hc2' : sBv.heap.cells.size < sBe.heap.cells.size := by omega
+      have hσc : (K1 K sA.heap sB.heap (withSel prog T E)).σ sBv.heap.cells.size = sAv.heap.cells.size := by
+        have hn : ¬ sBv.heap.cells.size < sB.heap.cells.size := Nat.not_lt.mpr hc1
+        simp only [K1, hn, ↓reduceIte]; omega
+      -- `$` of run B holds a plain value, which needs no creation
+      have hcellc := hK1e.cells sBv.heap.cells.size ⟨hc1, hc2'⟩
+      rw [hσc, ckA.2 _ (by omega), hgetcA] at hcellc
+      have hplc : Val.plain (sBe.heap.get sBv.heap.cells.size) := by
+        apply plain_of_renV (σ := (K1 K sA.heap sB.heap (withSel prog T E)).σ)
+        rw [← hcellc.1]; exact plA
+      have hn : needsCreate (sBe.heap.get sBv.heap.cells.size) = false := needsCreate_plain hplc
       -- the value to copy
       have hxB : xB < sBe.heap.cells.size := hcx.2.2
       have hxA : xA < sAe.heap.cells.size := by
@@ -311,34 +429,34 @@ theorem junction (prog : Program) (T : SelTok) (E : Expr) (hE : selE E = true) (
         exact JRel.err _ _ _ _ ⟨rfl, rfl⟩ hsrE.out
       | ok w =>
         have hwp : Val.plain w := copyVal_plain hcv
-        -- what the evaluation of `E` left alone
-        have presA : HeapPreserved sA.heap sAe.heap :=
-          ((hnest.pres.trans cA1.pres).trans hpresAd).trans naA.heap
-        have presB : HeapPreserved sB.heap sBe.heap := (cB1.pres.trans hpresBd).trans naB.heap
-        have harrsB : sBe.heap.arrs = sBv.heap.arrs := by rw [naB.arrs, harrBd]
-        have hobjsB : sBe.heap.objs = sBv.heap.objs := by rw [naB.objs, hobjBd]
+        -- the members of the containers of run B: those of run A, renamed
         have hmemA : ∀ k, sB.heap.arrs.size ≤ k → ∀ x ∈ (sBe.heap.arr k).toList,
-            sB.heap.cells.size ≤ x ∧ x < sBv.heap.cells.size := by
+            x ≠ sBv.heap.cells.size ∧ Val.plain (sBe.heap.get x) := by
           intro k hk x hx
-          have e : sBe.heap.arr k = sBv.heap.arr k := by simp only [Heap.arr, harrsB]
-          rw [e] at hx
-          exact (hsr1.heap.arrs k hk).2 x hx
+          have har := hK1e.arrs k hk
+          have hl := har.2 x hx
+          have hxA' : (K1 K sA.heap sB.heap (withSel prog T E)).σ x ∈ (sAe.heap.arr k).toList := by
+            rw [har.1, Array.toList_map]; exact List.mem_map_of_mem hx
+          have hpc := mphE.arrs k (by show sA.heap.arrs.size ≤ k; rw [hs.heap.sza]; exact hk) _ hxA'
+          refine ⟨fun e => hpc.1 (by rw [e]; exact hσc), ?_⟩
+          apply plain_of_renV (σ := (K1 K sA.heap sB.heap (withSel prog T E)).σ)
+          rw [← (hK1e.cells x hl).1]; exact hpc.2.2
         have hmemO : ∀ k, sB.heap.objs.size ≤ k → ∀ kc ∈ sBe.heap.obj k,
-            sB.heap.cells.size ≤ kc.2 ∧ kc.2 < sBv.heap.cells.size := by
+            kc.2 ≠ sBv.heap.cells.size ∧ Val.plain (sBe.heap.get kc.2) := by
           intro k hk kc hkc
-          have e : sBe.heap.obj k = sBv.heap.obj k := by simp only [Heap.obj, hobjsB]
-          rw [e] at hkc
-          exact (hsr1.heap.objs k hk).2 kc hkc
-        have hplain : ∀ i, sB.heap.cells.size ≤ i → i < sBv.heap.cells.size → Val.plain (sBe.heap.get i) := by
-          intro i h1 h2
-          rw [naB.heap.get i (by omega), hpresBd.get i h2]
-          exact cB1.plain i h1 h2
+          have hob := hK1e.objs k hk
+          have hl := hob.2 kc hkc
+          have hxA' : (kc.1, (K1 K sA.heap sB.heap (withSel prog T E)).σ kc.2) ∈ sAe.heap.obj k := by
+            rw [hob.1]; exact List.mem_map_of_mem (f := fun kc => (kc.1, (K1 K sA.heap sB.heap (withSel prog T E)).σ kc.2)) hkc
+          have hpc := mphE.objs k (by show sA.heap.objs.size ≤ k; rw [hs.heap.szo]; exact hk) _ hxA'
+          refine ⟨fun e => hpc.1 (by show (K1 K sA.heap sB.heap (withSel prog T E)).σ kc.2 = _; rw [e]; exact hσc), ?_⟩
+          apply plain_of_renV (σ := (K1 K sA.heap sB.heap (withSel prog T E)).σ)
+          rw [← (hK1e.cells kc.2 hl).1]; exact hpc.2.2
         have hfun : prog.functions = (withSel prog T E).functions := rfl
         have hheap := junction_heap wf h0 h0' prog (withSel prog T E) hKA hKB hfun hs.heap hK1e
-          (fun i hi => presA.get i hi) (fun k hk => presA.arr k hk) (fun k hk => presA.obj k hk)
-          (fun i hi => presB.get i hi) (fun k hk => presB.arr k hk) (fun k hk => presB.obj k hk)
-          sBv.heap.cells.size hc1 hc2' hplain hmemA hmemO w hwp
-        have wf2 := K2_wf wf (rA := sAe.heap.cells.size) hm hc1 hc2' hszE prog (withSel prog T E)
+          sBv.heap.cells.size hc1 hc2' hmemA hmemO w hwp
+        have wf2 := K2_wf wf (rA := sAe.heap.cells.size) (fun i => Val.plain (sBe.heap.get i)) hm hc1 hc2' hszE
+          prog (withSel prog T E)
         -- frames and root of run B are those of before
         have hkeep : Keeps sBd sBe := sfB.1
         have hfrE : sBe.frames = sB.frames := by
@@ -353,7 +471,7 @@ theorem junction (prog : Program) (T : SelTok) (E : Expr) (hE : selE E = true) (
           rw [hkeep.root, hrootBd, cB1.rest]
         -- old live things keep their relation in the new context
         have tr : Trans K (K2 K sB.heap.cells.size sBv.heap.cells.size sBe.heap.cells.size sAe.heap.cells.size
-            prog (withSel prog T E)) sB.heap.cells.size sBe.heap.cells.size := by
+            (fun i => Val.plain (sBe.heap.get i)) prog (withSel prog T E)) sB.heap.cells.size sBe.heap.cells.size := by
           refine ⟨?_, fun _ _ => Nat.zero_le _, fun _ _ => Nat.zero_le _, fun i _ => rfl⟩
           intro x hx
           have hx2 : x < sB.heap.cells.size := hx.2
@@ -389,7 +507,7 @@ theorem junction (prog : Program) (T : SelTok) (E : Expr) (hE : selE E = true) (
           · simp only [K2, hnot, ↓reduceIte]
           · show (if sBv.heap.cells.size < sB.heap.cells.size then _ else _)
             simp only [hnot, ↓reduceIte]
-            exact .inl (Nat.le_refl _)
+            exact fun _ => hplc
 
 end Sel
 end Jqawk
